@@ -153,6 +153,36 @@ PROPS["C03"] = {
     "trusted_base": ["ElementTree's writer and expat are exercised, not modelled: the element-level model is compared on the elements they produced"],
     "assumptions": ["carriage return and leading/trailing whitespace of text values are excluded (the property's own exclusions)"],
 }
+PROPS["C01"] = {
+    "suites": [("comp_sys", "gen_c01")],
+    "rule": "whole deployments in one process: 1-3 generated drivers (1-3 groups, all five vector kinds, all switch rules, printf and sexagesimal formats, initially enabled/disabled groups "
+            "and vectors, one driver optionally built through an inheritance chain of depth 2-3) + real Router + real server TCP handlers + fragmenting byte pipes (1024 / 1 byte / random) + "
+            "real client handlers + Client (control + BLOB connection) and in-process SnoopingClients; random histories of driver operations (assign, set_value, state, enabling of "
+            "vectors and groups) and client operations (assign+submit, handshake); after EVERY operation and quiescence each client mirror is judged against each driver by Spec.Sys.synced, "
+            "and the observed step is checked to be one the Lean deployment model allows (Sys.nextOk); distinct by operations x fragmentation x clients",
+    "trusted_base": ["in-memory pipes and quiescence detection (tools/comp_sys.py); encoders of live drivers and mirrors (comp_dev.enc_device, comp_cli.enc_mirror)"],
+    "assumptions": ["operations are separated by quiescence: re-ordering between the control and the BLOB connection is explored within one operation's batch only (model: all interleavings)",
+                    "a client that did not enable BLOBs is not sent setBLOBVector (protocol): of a BLOB property it is required to know the definition, not the updates"],
+}
+PROPS["C06"] = {
+    "suites": [("comp_sys", "gen_c06")],
+    "rule": "generated multi-device deployments (as for C01, every property enabled) x random (client, device, property, non-empty element subset) targets x values of the element's domain "
+            "(texts with markup, quotes, non-ASCII, inner whitespace; numbers in plain decimal and sexagesimal notation with all three separators; both switch states; byte strings) x "
+            "fragmentation {1024, 1, random}; before/after snapshots of EVERY driver judged by Spec.Sys.c06Holds, the writer's mirror by Spec.Sys.synced, the step by Sys.nextOk",
+    "trusted_base": ["in-memory pipes and quiescence detection (tools/comp_sys.py); encoders of live drivers and mirrors"],
+    "assumptions": ["switch elements not named in the write may change under the property's rule (C09 decides how)"],
+}
+PROPS["C08"] = {
+    "suites": [("comp_sys", "gen_c08"), ("comp_num", "gen_b64")],
+    "rule": "byte strings of every length 0..39 and around the 1024-byte read size and the 2048-character threshold (thorough: every 13th length up to 3100, all of 700..800 and 1500..1560, "
+            "100 kB and 1 MB), random contents and all 256 byte values, formats {.fits, .x, empty} x fragmentation {1024, 1, random} x clients {network (BLOB connection Only), network with "
+            "Also on the control connection, in-process snooping client (Never)} x direction (driver publishes; client uploads), each followed by ordinary traffic that must still arrive; "
+            "a watchdog turns a hang into a failure; base64 codec: every 1-byte and 2-byte string, lengths 0..69 and around 1024/1536/2048, every text over a 14-character alphabet up to "
+            "length 4 (thorough 5), malformed paddings, compared with binascii",
+    "trusted_base": ["in-memory pipes, quiescence detection and watchdog (tools/comp_sys.py, harness.time_limit)"],
+    "assumptions": ["real sockets and the kernel's buffering are not exercised"],
+}
+PROPS["SYSTEST"] = {"suites": [("comp_sys", "gen_c01"), ("comp_sys", "gen_c06"), ("comp_sys", "gen_c08")], "rule": "sys bring-up"}
 PROPS["CLITEST"] = {"suites": [("comp_cli", "gen_c15"), ("comp_cli", "gen_c16")], "rule": "cli bring-up"}
 PROPS["C12TEST"] = {"suites": [("comp_dev", "gen_c12")], "rule": "c12 bring-up"}
 
@@ -278,6 +308,48 @@ MANIFEST_TEXT = {
         "note": "C07_emitted_valid carries two extra hypotheses found by the proof attempt: stored and incoming BLOB values have a format string (values.BLOB(b, None) makes the driver emit a "
                 "oneBLOB its own parser rejects; recorded in DESIGN.md as usage outside the property). The XML character level is C03's subject. Trusted: kernel, translator, harness.",
         "technique": "Lean 4 theorems over the driver model and the regenerated class table + differential correspondence with re-parse by the real library",
+    },
+    "C01": {
+        "text": "The deployment is a Lean transition system (lean/Indi/Model/Sys.lean: drivers, router fan-out with BLOB policy, wire = fromXml . toXml, client mirrors; every interleaving of a "
+                "network client's control and BLOB connection). What is kernel-checked today are the links of C01's chain, re-exported in lean/Indi/Properties/C01.lean: a handshake is answered by "
+                "exactly the definitions of the enabled properties (C07_response), every driver operation keeps the driver well-formed (step_wf), every message a driver emits is read back by the "
+                "library's parser unchanged up to normalisation (C07_emitted_valid, C03_roundtrip), the client mirror tracks any definition/update/deletion stream exactly (C15_stream). The composed "
+                "invariant (allSynced is preserved by every Sys.nextOk step) is stated in DESIGN.md and not yet proved, therefore this check is labelled partial on the proof side. "
+                "The tie to the code is full-system: the real deployment is driven through random histories and EVERY observed step must be (a) allowed by the model (Sys.nextOk from the observed "
+                "state) and (b) end in mirrors that Spec.Sys.synced accepts for every driver.",
+        "note": "Partial: the composed convergence theorem is outstanding; operations are separated by quiescence; a peer without BLOBs is exempt from BLOB updates (protocol). "
+                "Trusted: kernel, translator, pipes/quiescence harness, encoders.",
+        "technique": "Lean 4 theorems for each link of the chain + executable deployment model checked step-by-step against the real deployment (refinement check) with the Lean spec as oracle",
+    },
+    "C06": {
+        "text": "Kernel-checked links (lean/Indi/Properties/C06.lean): a client message changes nothing but the elements it validly names and never raises (C12_frame, C12_no_raise), the message the "
+                "driver reads is the one the client built up to normalisation (C03_roundtrip), a number text is parsed to the number it denotes (C10_parse_denotes). The composed statement C06_write "
+                "over Sys.react is stated in DESIGN.md and not yet proved (partial). Tie to the code: real Client.submit -> serializer -> server handler -> framing -> router -> driver on generated "
+                "multi-device deployments; before/after snapshots of every driver are judged by Spec.Sys.c06Holds evaluated in Lean, the step by Sys.nextOk, the writer's mirror by synced.",
+        "note": "Partial: composed theorem outstanding. Switch siblings are free under the rule (C09 decides them). Trusted: kernel, translator, harness.",
+        "technique": "Lean 4 theorems for the links + executable deployment model checked step-by-step against the real deployment with the Lean spec as oracle",
+    },
+    "C08": {
+        "text": "Kernel-checked (lean/Indi/Properties/C08.lean, Proofs/B64.lean): for EVERY byte string, decode (encode bs) = bs for the model of binascii's base64 (by induction over 3-byte groups), "
+                "the encoding uses only the base64 alphabet (nothing XML escapes or a parser alters) and has the declared length; termination of Buffer.process is a theorem by construction "
+                "(C02/C11: processLoop is a total function). The model codec is tied to binascii by exhaustive short inputs in both directions; the end-to-end path is exercised on the real "
+                "deployment for every length across the read size and the threshold, three fragmentations, three client kinds and both directions, judged by Spec.Sys.c08Holds / c06Holds, with a "
+                "watchdog for hangs and follow-up traffic that must arrive.",
+        "note": "Known finding (known_findings.txt, key element-over-threshold): an element longer than the 2048-character junk-recovery threshold on a thresholded connection (any upload above "
+                "about 1.5 kB; BLOBs to a client that enabled Also on its control connection) is cut by junk recovery - by design of the threshold (C02 limits itself to it), contrary to C08's "
+                "'regardless of payload size'. Deployment-level theorems C08_down/up/publish are stated in DESIGN.md, in progress. Trusted: kernel, harness.",
+        "technique": "Lean 4 theorem (base64 round trip, induction) + differential codec correspondence + full-deployment runs with watchdog judged by the Lean spec",
+    },
+    "C03": {
+        "text": "Kernel-checked theorems (lean/Indi/Properties/C03.lean, 1500 lines of lemmas in Proofs/C03*.lean): for EVERY valid message of every registered kind (Spec.MsgValid.valid over the class "
+                "table regenerated from /repo: any attribute subset, any number of children, any text), fromXml (toXml m) succeeds and equals m up to the normalisation named in the property "
+                "(C03_roundtrip); what is read back is valid (C03_parsed_valid); parse . serialise is idempotent from the first parse on, hence identical bytes from the second serialisation on "
+                "(C03_fixed_point, with the explicit hypothesis that no text is blank - the property's own exclusion of leading/trailing whitespace; the statement without it is refuted by the "
+                "kernel-checked C03_fixed_point_counterexample). Generic in the class table; the generated table enters through one decide +kernel fact. Tied to the code by the real "
+                "to_string/from_string round trip on all kinds x attribute subsets x children x character classes x five foreign spellings, compared with the model and judged by the Lean spec.",
+        "note": "The element level is proved; the character level (ElementTree writer, expat: escaping, quoting, declaration) is exercised by the correspondence, not modelled. "
+                "Trusted: kernel, translator, harness.msg_view.",
+        "technique": "Lean 4 theorem (round trip of an element-level codec, generic in a regenerated class table) + differential correspondence through the real XML writer and parser",
     },
     "C17": {
         "text": "Kernel-checked theorems (lean/Indi/Properties/C17.lean): C17 - for every configuration (timeout, polling delay/interval >= 1), every timed sequence of event batches (any "
